@@ -16,7 +16,7 @@ TInit == /\ l = 1
          /\ LET x == EmptyX
                 reg == [ops |-> x.ops, shares |-> x.shares, rcpt |-> x.rcpt, last |-> 0]
             IN /\ db = reg /\ tx = reg /\ mem = Load(reg) /\ ks = x.ks /\ exp = x
-         /\ blockNo = 1 /\ blk = <<>> /\ pos = 0 /\ pend = <<>> /\ prev = <<>> /\ nEv = 0 /\ nFault = 0
+         /\ blockNo = 1 /\ blk = <<>> /\ pos = 0 /\ pend = <<>> /\ prev = <<>> /\ closed = FALSE /\ nEv = 0 /\ nFault = 0
          /\ act = [name |-> "init"]
 
 TSetup == /\ IsEv("Setup")
@@ -25,7 +25,7 @@ TSetup == /\ IsEv("Setup")
                  reg == [ops |-> x.ops, shares |-> MetaAll(x.shares), rcpt |-> x.rcpt, last |-> 1]
              IN /\ db' = reg /\ tx' = reg /\ mem' = Load(reg) /\ ks' = x.ks /\ exp' = x
                 /\ act' = [name |-> "Setup", events |-> s]
-          /\ blockNo' = 2 /\ blk' = <<>> /\ pos' = 0 /\ pend' = <<>> /\ prev' = <<>> /\ nEv' = 0 /\ nFault' = 0
+          /\ blockNo' = 2 /\ blk' = <<>> /\ pos' = 0 /\ pend' = <<>> /\ prev' = <<>> /\ closed' = FALSE /\ nEv' = 0 /\ nFault' = 0
           /\ Matches(Trace[l])
 
 TProc == /\ IsEv("Proc") /\ CanStart
@@ -39,7 +39,7 @@ TEndBlock == /\ IsEv("EndBlock")
 TReboot == /\ IsEv("Reboot") /\ Boundary
            /\ mem' = Load(db)
            /\ act' = [name |-> "Reboot"]
-           /\ UNCHANGED <<db, tx, ks, exp, blockNo, blk, pos, pend, prev, nEv, nFault>>
+           /\ UNCHANGED <<db, tx, ks, exp, blockNo, blk, pos, pend, prev, closed, nEv, nFault>>
            /\ Matches(Trace[l])
 
 TNext == TSetup \/ TProc \/ TEndBlock \/ TReboot
